@@ -357,3 +357,54 @@ def l1_lifecycle(pid, tier, seed):
         raise CheckError("model self-test: Lifecycle.f13.cfg (defect F13) was NOT caught by the model invariants")
     out["samples"].append(dict(model="Lifecycle.tla", note="3 publishes x start/cancel/disconnect/timer/ack in every order"))
     return out
+
+
+# ----------------------------------------------------------------------------- ASan pass over conformant families
+def asan_pass(families, sizes=(500, 6000)):
+    """returns a stage running the given scenario families on the client built with ASan+UBSan: a sanitizer report, a crash
+    or an uncaught exception of the real client in a scenario a conformant environment produces is a violation."""
+    def stage(pid, tier, seed):
+        import concurrent.futures as cf, gen
+        rc, o = vlib.sh("flock %s/build.lock make -C %s/harness -f asan.mk REPO=%s OUT=%s %s/simrun_asan" % (vlib.WORK, vlib.VERIF, vlib.REPO, vlib.BIN, vlib.BIN), timeout=3000)
+        if rc != 0:
+            log(o[-4000:]); raise CheckError("ASan build of simrun failed")
+        out = dict(name="ASan/UBSan pass over %s" % ",".join(families), states=0, transitions=0, violations=0, vectors=0, samples=[])
+        items = []
+        for fam in families:
+            key = "asan-%s-%s-%s-%s-%s" % (fam, tier, seed, vlib.repo_hash(), vlib.machinery_hash())
+            cpath = os.path.join(vlib.WORK, "cache", key + ".json")
+            if os.path.exists(cpath):
+                with open(cpath) as f: res = json.load(f)
+            else:
+                lines = gen.generate(fam, seed + 1000, sizes[0] if tier == "quick" else sizes[1])
+                d = os.path.join(vlib.WORK, "run", "asan-%s-%s-%s" % (fam, tier, seed)); shutil.rmtree(d, ignore_errors=True); os.makedirs(d)
+                per = 150
+                parts = [lines[i:i + per] for i in range(0, len(lines), per)]
+                def run(ix):
+                    sp = os.path.join(d, "s_%03d.ndjson" % ix); tp = os.path.join(d, "t_%03d.ndjson" % ix)
+                    with open(sp, "w") as f: f.write("\n".join(parts[ix]) + "\n")
+                    rc, o = _run_asan(sp, tp)
+                    bad = []
+                    if rc != 0:
+                        for j, line in enumerate(parts[ix]):
+                            one = os.path.join(d, "one_%03d_%d.ndjson" % (ix, j))
+                            with open(one, "w") as f: f.write(line + "\n")
+                            rc1, o1 = _run_asan(one, one + ".trace")
+                            if rc1 != 0:
+                                m = re.search(r"(ERROR: AddressSanitizer[^\n]*|runtime error[^\n]*|terminate[^\n]*)", o1)
+                                bad.append([json.loads(line)["name"], m.group(1) if m else "exit %d" % rc1, one])
+                            else:
+                                os.remove(one); os.remove(one + ".trace")
+                    exc = 0
+                    if os.path.exists(tp):
+                        with open(tp) as f: exc = sum(1 for l in f if '"e":"exception"' in l or '"e":"hang"' in l)
+                    return bad, exc, len(parts[ix])
+                with cf.ThreadPoolExecutor(max_workers=vlib.NCPU) as ex: rs = list(ex.map(run, range(len(parts))))
+                res = dict(bad=[b for r in rs for b in r[0]], exc=sum(r[1] for r in rs), n=sum(r[2] for r in rs), sample=json.loads(lines[0]))
+                with open(cpath, "w") as f: json.dump(res, f)
+            out["vectors"] += res["n"]; out["samples"].append(res["sample"])
+            for (name, what, one) in res["bad"]:
+                items.append(("%s_m_MemoryErrorOrCrash" % pid, fam, "%s: %s (script %s)" % (name, what, one)))
+        out["violations"] = report_simple(pid, items, lambda cl, cls: "sanitizer report / crash of the real client in family %s" % cls)
+        return out
+    return stage
